@@ -81,7 +81,7 @@ def handle (args : List String) : Option String :=
     let kind := (kind0.splitOn ".").headD kind0
     if kind == "clean" || kind == "pclean" || kind == "cleanb" then some "done"
     else if kind == "cut" || kind == "rd" || kind == "wr" || kind == "cancel" || kind == "pwr" || kind == "prd"
-        || kind == "rdb"
+        || kind == "rdb" || kind == "crd" || kind == "cwr"
       then some "fail"
     else none
   | ["comp", st0, script, fault] => Comp.handle st0 script fault
